@@ -293,6 +293,7 @@ type ckksCfg struct {
 	declareEach bool
 	nilHoles    bool // absent coefficients are nil pointers (as bignum.NewPolynomial keeps them) instead of zeros
 	twice       bool // evaluate the same polynomial object a second time
+	irregular   bool // irregular-hole shapes
 	logSlots    int  // 0: full packing; otherwise sparse packing on 2^logSlots slots
 }
 
@@ -338,6 +339,9 @@ func ckksLeaf(c *engine.Chooser, scName string, cfg *ckksCfg) {
 		bc.name, sh.name, kind, entryNames[entry], level, need, maxLevel, inAlt, tgtAlt, declare, nilHoles, twice)
 	c.Cover("nilHoles", fmt.Sprint(nilHoles))
 	c.Cover("twice", fmt.Sprint(twice))
+	if cfg.irregular {
+		c.Cover("holes", "irregular")
+	}
 	c.Note("%s", desc)
 	sig := "C13/ckks-" + bc.name + "/" + entryNames[entry]
 	class := knownClass("ckks", sh, kind, entry, declare)
@@ -435,7 +439,10 @@ func ckksLeaf(c *engine.Chooser, scName string, cfg *ckksCfg) {
 	mkBig := func(k int) bignum.Polynomial {
 		var p bignum.Polynomial
 		var cs interface{} = coeffs[k]
-		if nilHoles {
+		// nil (absent) coefficients are only usable where the library never dereferences them: in vectors (a nil entry of
+		// the coefficient vector encodes as 0) and where the Paterson-Stockmeyer split fills the hole (the irregular-hole
+		// shapes); a nil elsewhere in a single polynomial is a nil-pointer panic in the scalar MulThenAdd (not generated).
+		if nilHoles && (kind >= kVector0 || cfg.irregular) {
 			// absent terms as nil coefficients (the leading one stays: the library dereferences Coeffs[degree])
 			bc := make([]*bignum.Complex, len(coeffs[k]))
 			for i, v := range coeffs[k] {
@@ -648,6 +655,21 @@ func ckksScenarios(tier string, shapes []shape, bound int) []engine.Scenario {
 				}
 				cfg := &ckksCfg{spec: spec, basis: bc, shapes: shapes[lo:hi]}
 				name := fmt.Sprintf("%s/%s/shapes%03d-%03d", spec.String(), bc.name, lo, hi-1)
+				scs = append(scs, engine.Scenario{Name: name, Bound: bound, Fn: func(c *engine.Chooser) { ckksLeaf(c, name, cfg) }})
+			}
+		}
+	}
+	// irregular holes above degree 8, as nil coefficients, every evaluation repeated with the same polynomial object
+	{
+		irr := irregularHoleShapes()
+		for _, bc := range basisCases {
+			for lo := 0; lo < len(irr); lo += chunk {
+				hi := lo + chunk
+				if hi > len(irr) {
+					hi = len(irr)
+				}
+				cfg := &ckksCfg{spec: ckksA, basis: bc, shapes: irr[lo:hi], nilHoles: true, twice: true, irregular: true}
+				name := fmt.Sprintf("%s/irregular-holes/%s/shapes%03d-%03d", ckksA.String(), bc.name, lo, hi-1)
 				scs = append(scs, engine.Scenario{Name: name, Bound: bound, Fn: func(c *engine.Chooser) { ckksLeaf(c, name, cfg) }})
 			}
 		}
